@@ -9,7 +9,8 @@ export CARGO_NET_OFFLINE=true
 case "$ID" in
   C01|C02) TARGETS="fz_roundtrip" ;;
   C03) TARGETS="fz_decode fz_client fz_stream" ;;
-  C05|C10|C17) TARGETS="fz_client" ;;
+  C05|C10|C17) TARGETS="fz_client fz_history" ;;
+  C06|C07|C08|C11|C12|C13) TARGETS="fz_history" ;;
   C16) TARGETS="fz_stream" ;;
   C18) TARGETS="fz_decode" ;;
   *) exit 0 ;;
@@ -28,7 +29,7 @@ for T in $TARGETS; do
   rm -rf "$CORPUS" "$ART"; mkdir -p "$CORPUS" "$ART"
   "$BIN" corpus "$T" "$CORPUS" >/dev/null || { echo "INCONCLUSIVE: corpus generation failed"; exit 2; }
   LOG="fuzz/artifacts/$T-$ID-$$.log"
-  cargo +nightly fuzz run "$T" "$CORPUS" -- -seed="$SEED" -max_total_time="$SECS" -fork=16 -len_control=0 -max_len=4096 \
+  VERIF_FOCUS="$ID" VERIF_DIR="$VERIF_DIR" cargo +nightly fuzz run "$T" "$CORPUS" -- -seed="$SEED" -max_total_time="$SECS" -fork=16 -len_control=0 -max_len=4096 \
       -artifact_prefix="$ART" -ignore_crashes=0 -print_final_stats=1 >"$LOG" 2>&1
   frc=$?
   EXECS=$(grep -Eo "#[0-9]+:" "$LOG" | tail -1 | tr -d '#:')
@@ -48,6 +49,15 @@ for T in $TARGETS; do
         printf '{"property":"%s","check":"%s","reason":"libFuzzer artifact","case":"%s"}\n' "$ID" "$CHK" "$HEX" > "$J"
         if "$BIN" "$ID" --replay "$J" >/dev/null 2>&1; then
           echo "INCONCLUSIVE: libFuzzer artifact $KEEP does not reproduce in the strict replay"; rc=2
+        else
+          echo "reason: $REASON"; echo "VIOLATION property=$ID replay=$J"; rc=1
+        fi ;;
+      fz_history)
+        J="$VERIF_DIR/replays/$ID-$T-$(basename "$CRASH").json"
+        if ! "$BIN" hist-json "$ID" "$CRASH" "$J" >/dev/null 2>&1; then
+          echo "INCONCLUSIVE: libFuzzer artifact $KEEP could not be converted into a history"; rc=2
+        elif "$BIN" "$ID" --replay "$J" >/dev/null 2>&1; then
+          echo "INCONCLUSIVE: libFuzzer artifact $KEEP ($REASON) does not reproduce in the replay of $J"; rc=2
         else
           echo "reason: $REASON"; echo "VIOLATION property=$ID replay=$J"; rc=1
         fi ;;
